@@ -223,6 +223,12 @@ func CheckC10(r *core.Run) {
 	})
 	traces := histories(r, cfgs)
 	sampleTrace(r, traces)
+	scen := c10Scenarios(r)
+	for _, t := range scen {
+		r.AddDistinct(t.Name)
+		r.AddEvals(int64(len(t.Events)))
+	}
+	traces = append(traces, scen...)
 	judgeTx(r, "TxTrace_C10.cfg", traces, false)
 }
 
